@@ -227,6 +227,9 @@ def work(rep, args):
                 "checker_cmd": "tlc TokenLayer.tla (exhaustive + -simulate); tlc TokenTrace.tla on recorded traces",
             }
         )
+        from checks import e2e
+        e2e.run_phase(rep, args, {"E2E_ResponseMatchesRequest", "E2E_CompletesOnce", "E2E_CompletesUnderBoundedLoss",
+                                  "E2E_ErrorsAreLibraryErrors", "E2E_DoneUnknown", "E2E_NoLoopException"})
         rep.assumptions += [
             "virtual-time event loop and fake UDP socket stand in for the OS",
             "requests to multicast addresses and observations are outside this check (C07/C10)",
